@@ -821,12 +821,23 @@ func (t *termRenderer) term(s *pstate, v ssa.Value, d int) string {
 		return "make(" + typeShort(x.Type()) + ")"
 	case *ssa.Builtin:
 		return x.Name()
+	case *ssa.Range:
+		return "range(" + t.term(s, x.X, d+1) + ")"
+	case *ssa.Next:
+		return "next(" + t.term(s, x.Iter, d+1) + ")"
+	case *ssa.Select:
+		return "select"
 	}
 	return fmt.Sprintf("?%T", v)
 }
 
 func constStr(k *ssa.Const) string {
 	if k.Value == nil {
+		if !isNillable(k.Type()) {
+			if b, ok := k.Type().Underlying().(*types.Basic); !ok || b.Kind() != types.UntypedNil {
+				return "zero(" + typeShort(k.Type()) + ")"
+			}
+		}
 		return "nil"
 	}
 	switch k.Value.Kind() {
